@@ -34,6 +34,9 @@ Definition ret (hooked : bool) (g : gstate) (eo : option ecls) : gstate * outcom
   | Some e => ((if hooked then set_err (Some e) g else g), OErr e)
   end.
 
+(* an error value handed back as the outcome of a call *)
+Definition oerr (eo : option ecls) : outcome := match eo with Some e => OErr e | None => OOk end.
+
 (* ---------------------------------------------------------------- tests *)
 Definition cmp_is_chain (c : cmp) : bool := match c with CChain => true | _ => false end.
 Definition cmp_is_workflow (c : cmp) : bool := match c with CWorkflow => true | _ => false end.
